@@ -256,7 +256,12 @@ type c07SwitchCase struct {
 	Reads [][2]int `json:"reads"` // per Read call: {start position, abort position or -1}; positions 0:<S 1:<W 2:<D 3:>D
 	Len   int      `json:"len"`
 	Buf   int      `json:"buf"`
+	// Again: the connection is already encrypted (an earlier pair-verify, one request delivered under its keys) and
+	// the steps are those of a SECOND pair-verify on the same connection: the new keys take over for what follows
+	Again bool `json:"again,omitempty"`
 }
+
+var c07Secret0 = [32]byte{1, 1, 2, 3, 5, 8, 13, 21, 34, 55, 89, 144, 233}
 
 type switchConn struct {
 	queue   []byte
@@ -305,6 +310,40 @@ func c07SwitchExec(c *fw.Ctx, cas c07SwitchCase) {
 	ctx := hap.NewContextForSecuredDevice(nil)
 	conn := hap.NewConnection(sc, ctx)
 	sess := ctx.GetSessionForConnection(sc)
+	label := fmt.Sprint(cas.Reads)
+	if cas.Again {
+		label = "again:" + label
+	}
+	fail := func(sym, desc string) { c.Report("switch/"+sym+"/reads="+label, desc, cas) }
+	var a2c0 []byte
+	if cas.Again {
+		// first session: installed, and one request of 30 bytes delivered under its keys
+		first, err := hccrypto.NewSecureSessionFromSharedKey(c07Secret0)
+		if err != nil {
+			c.Infra(err.Error())
+			return
+		}
+		var c2a0 []byte
+		a2c0, c2a0 = refctl.SessionKeys(c07Secret0[:])
+		sess.SetCryptographer(first)
+		var ctr0 uint64
+		p0 := pat(30, 5)
+		sc.queue = append(sc.queue, refctl.Frames(c2a0, &ctr0, p0)...)
+		var got0 []byte
+		for i := 0; len(got0) < len(p0) && i < 100; i++ {
+			buf := make([]byte, cas.Buf)
+			n, rerr := conn.Read(buf)
+			got0 = append(got0, buf[:n]...)
+			if rerr != nil {
+				fail("first-session-read-error", fmt.Sprintf("Read under the first session returned %v", rerr))
+				return
+			}
+		}
+		if !bytes.Equal(got0, p0) {
+			fail("first-session-differs", "the request under the first session was not delivered as its plaintext")
+			return
+		}
+	}
 	pos := 0
 	advance := func(to int) {
 		for pos < to {
@@ -319,8 +358,6 @@ func c07SwitchExec(c *fw.Ctx, cas c07SwitchCase) {
 			pos++
 		}
 	}
-	label := fmt.Sprint(cas.Reads)
-	fail := func(sym, desc string) { c.Report("switch/"+sym+"/reads="+label, desc, cas) }
 	var got []byte
 	doRead := func(start, abort int) bool {
 		if start > pos {
@@ -363,7 +400,13 @@ func c07SwitchExec(c *fw.Ctx, cas c07SwitchCase) {
 	}
 	advance(3)
 	switch {
-	case len(sc.wire) != 1 || !bytes.Equal(sc.wire[0], response):
+	case cas.Again && func() bool { // the response of the second pair-verify travels under the keys of the first session
+		var ctr uint64
+		pts, err := refctl.OpenFrames(a2c0, &ctr, bytes.Join(sc.wire, nil))
+		return err != nil || !bytes.Equal(bytes.Join(pts, nil), response)
+	}():
+		fail("response-not-under-first-session", "the response of the second pair-verify did not reach the wire sealed under the keys of the running session")
+	case !cas.Again && (len(sc.wire) != 1 || !bytes.Equal(sc.wire[0], response)):
 		fail("response-not-plaintext", "the pair-verify response did not reach the wire as the plaintext bytes written (the session switched before the response was written)")
 	case !bytes.Equal(got, plain):
 		what := "differs"
@@ -401,6 +444,14 @@ func c07SwitchCases() []c07SwitchCase {
 					}
 				}
 			}
+		}
+	}
+	n := len(out)
+	for i := 0; i < n; i++ {
+		x := out[i]
+		if len(x.Reads) <= 2 {
+			x.Again = true
+			out = append(out, x)
 		}
 	}
 	return out
